@@ -1,5 +1,105 @@
 import XsVerif.Driver.Util
-open Lean XsVerif.Driver
+import XsVerif.Model.Lazy
+open Lean XsVerif.Driver XsVerif.Lazy
 
--- stub: replaced when the model of C06 lands
-def main : IO Unit := XsVerif.Driver.run fun _ => .error "C06 driver not implemented"
+namespace XsVerif.Driver.C06
+
+partial def parseTree (j : Json) : Except String Tree := do
+  let i ← getNat j "id"
+  let tg ← getStr j "tag"
+  let ds ← (← getArr j "decls").toList.mapM fun d => do
+    let a ← d.getArr?
+    if h : a.size = 2 then pure ((← a[0].getStr?), (← a[1].getStr?)) else throw "decl"
+  let cs ← (← getArr j "cs").toList.mapM parseTree
+  return .node i tg ds cs
+
+def natArr (l : List Nat) : Json := Json.arr (l.map (fun (n : Nat) => (Lean.toJson n))).toArray
+
+def nsmapJson (m : NsMap) : Json :=
+  let a := (m.toArray.qsort (fun x y => x.1 < y.1))
+  Json.arr (a.map fun p => Json.arr #[p.1, p.2])
+
+def nsOut (o : Option (List (Nat × NsMap))) : Json :=
+  match o with
+  | none => Json.str "IndexError"
+  | some l => Json.arr (l.map fun p => Json.arr #[Lean.toJson p.1, nsmapJson p.2]).toArray
+
+def kindStr : Kind → String
+  | .incomplete => "incomplete" | .full => "full" | .sub => "sub"
+
+def ancOut (l : List (Nat × List Nat)) : Json :=
+  Json.arr (l.map fun p => Json.arr #[Lean.toJson p.1, natArr p.2]).toArray
+
+def natList (j : Json) : Except String (List Nat) := do
+  (← j.getArr?).toList.mapM fun x => x.getNat?
+
+/-- tables → abstract validator -/
+structure Tables where
+  segs : List (Nat × Nat × Nat × List Nat)     -- decl, node, slot, errors
+  govs : List (Nat × Nat × Nat × Nat)          -- decl, node, child index, decl of the child
+  static : List (Nat × Nat)                    -- chunk node id, decl found by get_element
+  created : List (Nat × Nat)                   -- chunk node id, decl created for xsi:type
+
+def mkVal (tb : Tables) : Val Nat Nat where
+  seg := fun d t j => (tb.segs.filter fun e => e.1 == d && e.2.1 == t.id && e.2.2.1 == j).flatMap (·.2.2.2)
+  gov := fun d t j => (tb.govs.find? fun e => e.1 == d && e.2.1 == t.id && e.2.2.1 == j).map (·.2.2.2)
+
+def lookup (l : List (Nat × Nat)) (t : Tree) : Option Nat := (l.find? fun e => e.1 == t.id).map (·.2)
+
+def parseTables (j : Json) : Except String Tables := do
+  let segs ← (← getArr j "segs").toList.mapM fun e => do
+    let a ← e.getArr?
+    if h : a.size = 4 then pure ((← a[0].getNat?), (← a[1].getNat?), (← a[2].getNat?), (← natList a[3]))
+    else throw "seg"
+  let govs ← (← getArr j "govs").toList.mapM fun e => do
+    let a ← natList e
+    match a with
+    | [x, y, z, w] => pure (x, y, z, w)
+    | _ => throw "gov"
+  let pair (k : String) : Except String (List (Nat × Nat)) := do
+    (← getArr j k).toList.mapM fun e => do
+      let a ← natList e
+      match a with
+      | [x, y] => pure (x, y)
+      | _ => throw k
+  return { segs, govs, static := ← pair "static", created := ← pair "created" }
+
+def handle (j : Json) : Except String Json := do
+  let op ← getStr j "op"
+  let t ← parseTree (← j.getObjVal? "tree")
+  match op with
+  | "ns" =>
+    return Json.mkObj [("lazy", nsOut (lazyNsmaps t)), ("eager_pinned", nsOut (eagerNsmaps t)),
+                       ("inscope", nsOut (some (inScope [] t)))]
+  | "iter" =>
+    let d ← getNat j "d"
+    let sel : String → Bool := match j.getObjValAs? String "tag" with
+      | .ok tg => fun s => s == tg
+      | .error _ => fun _ => true
+    return Json.mkObj [("yields", Json.arr ((iterRun d sel t).map fun p =>
+      Json.arr #[Lean.toJson p.1, Json.str (kindStr p.2)]).toArray)]
+  | "iterdepth" =>
+    return Json.mkObj [("yields", ancOut (iterDepthRun (← getNat j "mode") (← getNat j "d") t))]
+  | "iterfind" =>
+    return Json.mkObj [("yields", ancOut (iterfindRun (← getNat j "pd") t))]
+  | "lazyval" =>
+    let k ← getNat j "k"
+    let d ← getNat j "root"
+    let tb ← parseTables j
+    let v := mkVal tb
+    let krefs ← natList (← j.getObjVal? "krefs")
+    let idrefs ← natList (← j.getObjVal? "idrefs")
+    let pairs := chunkPairs v k [] (some d) t
+    let loc := pairs.all fun p => lazyPick (lookup tb.static) (lookup tb.created) p.2.1 p.2.2 == p.2.1
+    let nonlocal := pairs.filterMap fun p =>
+      if lazyPick (lookup tb.static) (lookup tb.created) p.2.1 p.2.2 == p.2.1 then none else some p.2.2.id
+    return Json.mkObj [
+      ("eager", natArr (eagerErrors v d t krefs idrefs)),
+      ("lazy", natArr (lazyErrors v (lookup tb.static) (lookup tb.created) k d t krefs idrefs)),
+      ("cut", natArr ((cutT v k [] d t).map Prod.snd)),
+      ("local", loc), ("nonlocal", natArr nonlocal)]
+  | _ => throw s!"unknown op {op}"
+
+end XsVerif.Driver.C06
+
+def main : IO Unit := XsVerif.Driver.run XsVerif.Driver.C06.handle
